@@ -235,14 +235,47 @@ def tilde_stable(p: T) -> bool:
         return tilde_stable(a) and tilde_stable(b)
     if _is_expanded(p):
         return True
+    if p.op == "call" and p.args[0].op == "func" and \
+            p.args[0].args[0] in _EXPANDING:
+        return True
     if is_call_to(p, "os.path.join") and p.args[1]:
         return tilde_stable(p.args[1][0])
     return classify_path(p) != "user"
 
 
+# evo helper through which check_and_confirm_overwrite looks at its path
+# (set per run from the function's own body): a sink that writes
+# helper(<asked path>) writes the file the prompt was about
+_CHK_RESOLVER: List[Optional[str]] = [None]
+_EXPANDING: set = set()     # evo helpers whose result went through expanduser
+
+
+def _find_chk_resolver(prog) -> Optional[str]:
+    g = prog.func(CHK)
+    p = tm.param(g.params[0])
+    r = Interp(prog, auto_inline=False).run(g)
+    for a in r.ret.walk():
+        if is_call_to(a, "os.path.isfile", "os.path.exists") and a.args[1]:
+            x = a.args[1][0]
+            if x.op == "call" and x.args[0].op == "func" and x.args[1] and \
+                    x.args[1][0] is p:
+                return x.args[0].args[0]
+    return None
+
+
 def _same_file(asked: T, path: T, kind: str) -> bool:
     """the prompt's argument names the file the sink writes"""
     if asked is path:
+        return True
+    while path.op == "ite" and is_call_to(path.args[0],
+                                          "builtins.isinstance"):
+        path = path.args[1]          # the alternative for str / Path
+    if asked is path:
+        return True
+    res = _CHK_RESOLVER[0]
+    if res is not None and path.op == "call" and \
+            tm.callee_name(path) == res and path.args[1] and \
+            path.args[1][0] is asked:
         return True
     return kind in PANDAS_KINDS and _is_expanded(asked, of=path)
 
@@ -270,6 +303,17 @@ def check(ctx):
     prog = ctx.prog
     results = sweep(prog, "plain")
     ctx.analysed["functions_swept"] = len(results)
+    _CHK_RESOLVER[0] = _find_chk_resolver(prog)
+    _EXPANDING.clear()
+    for q, res_ in results.items():
+        f_ = res_.func
+        if f_.cls is None and f_.params and any(
+                _is_expanded(x) and x.op == "call" and (
+                    (x.args[1] and x.args[1][0] is tm.param(f_.params[0])))
+                for x in res_.ret.walk()) and not any(
+                a is tm.param(f_.params[0])
+                for a in tm.strip_ite(res_.ret)):
+            _EXPANDING.add(q)
 
     # ---------------------------------------------------------- C17.1 / .2
     subject = []
@@ -576,8 +620,23 @@ def _check_prompt(ctx):
     tests = [a for a in ret2.walk()
              if is_call_to(a, "os.path.isfile", "os.path.exists",
                            ".is_file", ".exists")]
-    on_own = [a for a in tests if (a.args[1] and a.args[1][0] is p) or
-              tm.method_recv(a) is p]
+    def own(x) -> bool:
+        # the parameter, possibly expanded / normalised first
+        for _ in range(6):
+            if x is p:
+                return True
+            if x is not None and x.op == "call" and x.args[1] and (
+                    tm.callee_name(x) in (
+                        "os.path.expanduser", "os.path.expandvars",
+                        "os.path.abspath", "os.path.realpath",
+                        "os.path.normpath", "os.fspath", "builtins.str",
+                        "pathlib.Path") or x.args[0].op == "func"):
+                x = x.args[1][0]
+                continue
+            return False
+        return False
+    on_own = [a for a in tests if (a.args[1] and own(a.args[1][0])) or
+              own(tm.method_recv(a))]
 
     def kinds_of(x: T):
         while x.op == "named":
